@@ -134,6 +134,7 @@ func crossInputs(fmtName string, salt int64, nWell, nNoise int) []corpusInput {
 	if nWell >= 4 { // two inputs larger than bufio's 4096-byte buffer (one several times larger)
 		ins[nWell-1] = corpusFor(fmtName, salt+1, 1, 120)[0]
 		ins[nWell-2] = corpusFor(fmtName, salt+2, 1, 900)[0]
+		ins[nWell-3] = longLineInput(fmtName, salt+3)
 	}
 	if fmtName == "newick" { // line breaks inside quoted names are content, not terminators: keep them out of the CRLF comparison
 		for i := range ins {
